@@ -103,14 +103,14 @@ InForce(cfg, file, l) ==
     IF cfg.enabled[l] /\ file[l].ex
     THEN {file[l].rules[i] : i \in DOMAIN file[l].rules} ELSE {}
 
-\* ch : selected list -> the outcome of its download.
-After(cfg, S, sel, ch) ==
+\* ch : selected list -> the outcome of its download; newsum its checksum.
+AfterWith(cfg, S, sel, ch, newsum) ==
     LET \* phase 1
-        chg   == {l \in sel : ch[l].ok /\ Sum(ch[l].rules) # S.sum[l]}
+        chg   == {l \in sel : ch[l].ok /\ newsum[l] # S.sum[l]}
         file1 == [l \in Lists |-> IF l \in chg THEN FileOf(ch[l].rules) ELSE S.file[l]]
         \* phase 2
         cnt2  == [l \in Lists |-> IF l \in chg THEN Count(ch[l].rules) ELSE S.count[l]]
-        sum2  == [l \in Lists |-> IF l \in chg THEN Sum(ch[l].rules) ELSE S.sum[l]]
+        sum2  == [l \in Lists |-> IF l \in chg THEN newsum[l] ELSE S.sum[l]]
         \* phase 3.  NetErr: every selected list of one kind failed.  Today's
         \* code returns early in that case, before the rebuild, although
         \* lists of the other kind may have been replaced in phases 1 and 2.
@@ -125,11 +125,23 @@ After(cfg, S, sel, ch) ==
         rew    |-> chg,                          \* lists whose file was replaced
         failed |-> {l \in sel : ~ch[l].ok}]
 
-\* All admissible results of Refresh (a set because Outcomes is one).
+\* (Bound variables instead of LETs for what is used repeatedly, see
+\* RuleListCore!Parse.)
+After(cfg, S, sel, ch) ==
+    CHOOSE r \in {AfterWith(cfg, S, sel, ch, ns) : ns \in {[l \in sel |-> Sum(ch[l].rules)]}} : TRUE
+
+\* All admissible results of Refresh (a set because Outcomes is one).  An
+\* outcome set is {Fail}, {Ok(r)} or {Ok(r), Fail}: the choice is which of the
+\* lists with a soft text reject it.  (Every text is parsed once: TLC does not
+\* memoise operator applications nor LET definitions.)
+ResultsOf(cfg, S, sel, oc) ==
+    LET best == [l \in sel |-> IF \E o \in oc[l] : o.ok THEN CHOOSE o \in oc[l] : o.ok ELSE Fail]
+        soft == {l \in sel : Cardinality(oc[l]) > 1}
+    IN {After(cfg, S, sel, ch) : ch \in {[l \in sel |-> IF l \in rej THEN Fail ELSE best[l]] : rej \in SUBSET soft}}
 Results(cfg, S, act, script) ==
-    LET sel == Selected(cfg, act)
-        all == UNION {Outcomes(script[l]) : l \in sel}
-    IN {After(cfg, S, sel, ch) : ch \in {c \in [sel -> all] : \A l \in sel : c[l] \in Outcomes(script[l])}}
+    UNION {ResultsOf(cfg, S, sel, oc) :
+              sel \in {Selected(cfg, act)},
+              oc \in {[l \in Selected(cfg, act) |-> Outcomes(script[l])]}}
 
 \* Restart over the same data directory: count and checksum are recomputed
 \* by parsing the stored file, the engines are rebuilt from the files.
